@@ -145,6 +145,7 @@ package cty
 //@   trusted
 //@   requires (and (wf_deep val) (wf_deep other))
 //@   ensures (and (is_bool_ty (vty result)) (wf_deep result) (not (is_null result)))
+//@   ensures (=> (and (not (is_marked val)) (not (is_marked other)) (or (not (is_known val)) (not (is_known other)))) (not (is_known result)))
 //@   ensures (=> (and (is_prim_ty (vty val)) (is_prim_ty (vty other)) (not (is_marked val)) (not (is_marked other))) (not (is_marked result)))
 //@   ensures (=> (and (is_number_ty (vty val)) (is_number_ty (vty other)) (kn val) (kn other) (not (is_marked val)) (not (is_marked other))) (and (not (is_marked result)) (bool_payload result (num_eq val other))))
 //@   ensures (forall ((k Any)) (! (=> (or (select (marks_of val) k) (select (marks_of other) k)) (select (marks_of result) k)) :pattern ((select (marks_of result) k))))
@@ -153,10 +154,12 @@ package cty
 //
 //@ func (cty.Value).True
 //@   tags C02
-//@   requires (and (wf_deep val) (not (is_marked val)) (is_bool_ty (vty val)) (kn val))
+//@   requires (and (wf_deep val) (not (is_null val)))
+//@   panics[C02] (or (is_marked val) (not (is_bool_ty (vty val))) (not (is_known val)))
 //@   ensures[C02] (= result (bool_of val))
 //
 //@ func (cty.Value).False
 //@   tags C02
-//@   requires (and (wf_deep val) (not (is_marked val)) (is_bool_ty (vty val)) (kn val))
+//@   requires (and (wf_deep val) (not (is_null val)))
+//@   panics[C02] (or (is_marked val) (not (is_bool_ty (vty val))) (not (is_known val)))
 //@   ensures[C02] (= result (not (bool_of val)))
